@@ -195,6 +195,18 @@ func (e *Engine) vocab(short string) (handler, bool) {
 		return func(c *frame, f *ssa.Function, a []value) value { return False }, true
 	case "vYield":
 		return func(c *frame, f *ssa.Function, a []value) value { e.sched.yield(); return nil }, true
+	case "vGoroutines":
+		// goroutines other than the caller that have not ended once every one of them has run until it blocks
+		return func(c *frame, f *ssa.Function, a []value) value {
+			e.sched.yield()
+			n := 0
+			for _, g := range e.sched.gors {
+				if g != e.sched.cur && g != e.sched.main && !g.done {
+					n++
+				}
+			}
+			return IntC(int64(n))
+		}, true
 	case "vSchedFork":
 		return func(c *frame, f *ssa.Function, a []value) value {
 			e.sched.fork = a[0].(*Term).K && a[0].(*Term).B
